@@ -58,6 +58,8 @@ def main(tier, replay_payload=None):
                      "model, recovery script on a fresh instance; frame discharged by z3")
     run.replayer = lambda p: crash.replay_crash(w_args, menu_fn, p["vals"], p["clauses"])
     res = crash.explore_crashes(w_args, menu_fn)
+    from engine import battery
+    battery.validate(run)
     fold(run, res, "C10:", w_args)
     run.functions = loader.function_lines(loader.load(), API_FUNCS)
     run.bounds = dict(pids=w_args["pids"], contents=[len(c) for c in w_args["contents"]], formats=w_args["formats"],
